@@ -169,3 +169,10 @@ package load
 //@   property C02
 //@   ghost at after CpuUsage#0: cu = ret
 //@   ensures_local result == (cu >= cpuThreshold)
+
+// every shedder group has its own manager: the same key in two groups (e.g. two servers in one process, with different
+// shedder options) never resolves to one shared shedder
+//@ func NewShedderGroup
+//@   property C02
+//@   ensures result != nil && fresh(result) && result.manager != nil && fresh(result.manager) && sameSlice(result.options, opts)
+//@   allocates
